@@ -79,7 +79,7 @@ def run_one(m):
         props = m.get("properties") or [m["property"]]
         lines, rc_any = [], 0
         for pid in props:
-            r = subprocess.run([os.path.join(VERIF, "bin", "wmcheck"), "-property", pid, "-repo", dst,
+            r = subprocess.run([os.environ.get("WMCHECK", os.path.join(VERIF, "bin", "wmcheck")), "-property", pid, "-repo", dst,
                                 "-no-evidence", "-verif", VERIF], env=ENV, capture_output=True, text=True)
             if r.returncode == 2:
                 res["status"] = "INTERNAL"
